@@ -210,8 +210,50 @@ func floatNormalisesZero(repo string, e *emitter, dir, coq string) {
 	fmt.Fprintf(&e.b, "Definition %s : bool := %s.\n", coq, v32)
 }
 
+// taskLiteralField emits, in source order, the value given to field in every
+// Task{...} composite literal inside fn. In (*compiler).compile these are the
+// re-shuffle tasks inserted for a reused *Result (first) and the ordinary tasks
+// of a pipeline (second); Task.Type carries the key prefix the executors hand to
+// the partitioner, so it must be the slice being shuffled, not the type of the
+// tasks that produced the result.
+func taskLiteralField(repo string, e *emitter, dir, fn, field, coq string) {
+	p, err := loadPkg(repo, dir)
+	if err != nil {
+		e.fail("%v", err)
+		return
+	}
+	fd := p.findFunc(fn)
+	if fd == nil || fd.Body == nil {
+		e.fail("function %s.%s not found", dir, fn)
+		return
+	}
+	var vals []string
+	ast.Inspect(fd.Body, func(n ast.Node) bool {
+		cl, ok := n.(*ast.CompositeLit)
+		if !ok {
+			return true
+		}
+		if id, ok := cl.Type.(*ast.Ident); !ok || id.Name != "Task" {
+			return true
+		}
+		for _, el := range cl.Elts {
+			if kv, ok := el.(*ast.KeyValueExpr); ok {
+				if k, ok := kv.Key.(*ast.Ident); ok && k.Name == field {
+					vals = append(vals, coqString(srcText(p, kv.Value)))
+				}
+			}
+		}
+		return true
+	})
+	if len(vals) == 0 {
+		e.fail("no Task literal with field %s in %s.%s", field, dir, fn)
+	}
+	fmt.Fprintf(&e.b, "Definition %s : list string := [%s].\n", coq, strings.Join(vals, "; "))
+}
+
 func init() {
 	specs = append(specs, spec{"C05_params.v", func(repo string, e *emitter) {
+		taskLiteralField(repo, e, "exec", "compiler.compile", "Type", "compile_task_types")
 		floatNormalisesZero(repo, e, "frame", "float_hash_normalises_zero")
 		intLitsInFunc(repo, e, "frame", "hash32", "hash32_literals")
 		intLitsInFunc(repo, e, "frame", "hash64", "hash64_literals")
